@@ -37,12 +37,13 @@ def cases(tier, seed):
     out = [{"D": 2 if i % 5 else 3, "opt": opts[i % 3], "loss": ["smse", "normalized"][(i // 3) % 2]} for i in range(n)]
     # fixed histories: a pseudo-scalar / pseudo-vector type carried through normalisation (parameterisations that are
     # equivariant at initialisation only would be moved off it by the optimiser)
-    for j, f in enumerate(FIXED if tier == "thorough" else FIXED[:2]):
+    for j, f in enumerate(FIXED if tier == "thorough" else FIXED[:3]):
         out.append({"D": 2, "opt": opts[j % 3], "loss": "smse", "cfg": f})
     return out
 
 
 FIXED = [
+    {"cls": "ResNet", "D": 2, "equivariant": True, "in_sig": [[[0, 0], 2], [[1, 0], 1]], "out_sig": [[[1, 0], 1], [[0, 0], 2]], "depth": 2, "num_blocks": 1, "num_conv": 1, "num_downsamples": 1, "activation": "gelu", "norm": False, "preact": False, "bias": "auto", "bank_ks": [0, 1, 2], "torus": [True, True], "N": [4, 4], "keep_depth": True},
     {"cls": "ResNet", "D": 2, "equivariant": True, "in_sig": [[[0, 1], 1], [[1, 0], 1]], "out_sig": [[[0, 1], 1]], "depth": 1, "num_blocks": 1, "num_conv": 1, "num_downsamples": 1, "activation": "gelu", "norm": True, "preact": True, "bias": "auto", "bank_ks": [0, 1, 2], "torus": [True, True], "N": [4, 4]},
     {"cls": "ConvBlock", "D": 2, "equivariant": True, "in_sig": [[[0, 1], 2], [[1, 1], 1]], "out_sig": [[[0, 1], 2], [[1, 1], 2]], "depth": 1, "num_blocks": 1, "num_conv": 1, "num_downsamples": 1, "activation": "relu", "norm": True, "preact": False, "bias": "mean", "bank_ks": [0, 1, 2], "torus": [False, False], "N": [4, 5]},
     {"cls": "UNet", "D": 2, "equivariant": True, "in_sig": [[[1, 0], 1], [[0, 1], 1]], "out_sig": [[[0, 1], 1], [[1, 0], 1]], "depth": 1, "num_blocks": 1, "num_conv": 1, "num_downsamples": 1, "activation": "tanh", "norm": True, "preact": False, "bias": "auto", "bank_ks": [0, 1, 2], "torus": [True, True], "N": [4, 4]},
@@ -126,7 +127,7 @@ def run(case, ctx):
     if case.get("cfg"):
         cfg = dict(case["cfg"])
         cfg["stable"] = True
-    cfg["depth"] = 1
+    cfg["depth"] = cfg["depth"] if cfg.get("keep_depth") else 1
     cfg["num_blocks"] = 1
     if cfg["cls"] == "UNet":
         cfg["num_downsamples"] = 1
